@@ -85,7 +85,7 @@ Atoms == {Null, [j |-> "t"], [j |-> "f"], [j |-> "x", c |-> "x01"], [j |-> "x", 
          \cup {N(c) : c \in NumClasses \ BoundLits} \cup {S(c) : c \in StrClasses \ (QClasses \ {"q7", "q300"})}
 AtomsR == {Null, [j |-> "t"], N("p7"), N("p300"), N("f1_5"), S("sx"), S("s12"), Arr(<<>>), Obj(<<>>), [j |-> "x", c |-> "x01"]}
           \cup (IF Fam = "opts" THEN {S("ssur"), Obj(<<KV("~sur", N("p7"))>>)} ELSE {})
-          \cup (IF Fam \in {"st1", "st1l", "st1w", "st2", "emb", "opts"} THEN {S(c) : c \in QClasses \cup {"strue", "sq", "snull"}} ELSE {})
+          \cup (IF Fam \in {"st1", "st1l", "st1w", "st2", "emb", "opts"} THEN {S(c) : c \in QClasses \cup SQBad \cup {"strue", "sq", "sqe", "snull"}} ELSE {})
 
 RECURSIVE Match(_)
 Match(t) ==
